@@ -1214,3 +1214,13 @@ VP("C04-R2C-mut-yaml-guard-inverted", "C04", "guard-clause YAML loads: returns t
    "        if not self.root_key:\n            return document", "        if self.root_key:\n            return document")
 VP("C04-R2C-mut-yaml-unwrap-always", "C04", "guard-clause YAML loads: indexes by root_key although none configured", "C04-R2C", YAML,
    "        if not self.root_key:\n            return document\n", "")
+VP("C05-R2C-mut-bound-inclusive", "C05", "aliased bound compared with <=", "C05-R2C", NUM,
+   "        if lower is not None and num < lower:", "        if lower is not None and num <= lower:")
+VP("C05-R2C-mut-bound-truthy", "C05", "aliased bound guarded by truthiness", "C05-R2C", NUM,
+   "        if upper is not None and num > upper:", "        if upper and num > upper:")
+VP("C05-R2C-mut-false-token-true", "C05", "early-return bool validator maps FALSE tokens to True", "C05-R2C", BOOL,
+   "            if token in self.FALSE_VALUES:\n                return False", "            if token in self.FALSE_VALUES:\n                return True")
+VP("C05-R2C-mut-number-not-converted", "C05", "early-return bool validator returns numbers unconverted", "C05-R2C", BOOL,
+   "            return bool(value)", "            return value")
+VP("C05-R2C-mut-case-sensitive", "C05", "early-return bool validator compares tokens case-sensitively", "C05-R2C", BOOL,
+   "            token = value.lower()", "            token = value")
